@@ -88,7 +88,11 @@ func (pw *packetWriter) Write(p []byte) (n int, err error) {
 func (pw *packetWriter) ReadFrom(r io.Reader) (n int64, err error) {
 	buf := pw.pkt[:]
 	for {
-		nr, er := r.Read(buf)
+		// a reader may return fewer bytes than asked for, so fill a whole packet
+		nr, er := io.ReadFull(r, buf)
+		if er == io.ErrUnexpectedEOF {
+			er = io.EOF // the partial packet is reported below
+		}
 		if nr == PacketSize {
 			nw, ew := pw.WritePacket(&pw.pkt)
 			if nw > 0 {
